@@ -46,5 +46,7 @@ TEXT = {
     "sphere-moments": "monomial integrals over the unit sphere",
     "sylvester-injective": "X S + S X = 0 with S Hermitian positive definite implies X = 0",
     "perm-sum": "finite sums are invariant under permutation of the summands",
+    "h5py-group-map": "h5py Group = finite map name -> payload: create_dataset adds an entry, group[name] reads it, len counts entries; iteration is in lexicographic name order",
+    "str-injective": "Python's str() on non-negative integers is injective",
     "float-format": "formatting a float with a fixed precision and parsing it back returns the value to that precision",
 }
